@@ -288,6 +288,37 @@ func run(c *Case, base string) (violation string, nontrivial bool, classes []str
 					pendingEdits = nil
 				}
 			}
+		case "pause-after-failed-save":
+			// The first pause cannot save the session (its directory is
+			// briefly unavailable); the retried pause succeeds; the paused
+			// state must then survive a manager restart.
+			if !m.exists || m.paused {
+				break
+			}
+			sessionsDir := filepath.Dir(env.SessionPath(id))
+			away := sessionsDir + ".away"
+			if err := os.Rename(sessionsDir, away); err != nil {
+				break
+			}
+			firstErr := env.Pause(id)
+			os.Rename(away, sessionsDir)
+			if err := env.Pause(id); err != nil {
+				return fmt.Sprintf("step %d: pause fails although the session directory is available again (the first attempt had failed: %v): %v", ci, firstErr, err), false, classes
+			}
+			end := j.Mark(id, "pause.end")
+			m.paused = true
+			quietSince, quietWhy = end, "pause returned (after a first attempt that could not save the session)"
+			classes = append(classes, "pause-after-failed-save")
+			if firstErr != nil {
+				classes = append(classes, "pause-after-failed-save/first-attempt-failed")
+			}
+			if err := env.Restart(); err != nil {
+				return fmt.Sprintf("step %d: manager restart fails: %v", ci, err), false, classes
+			}
+			restartedWhilePaused = true
+			if st := env.State(id); st == nil || !st.Session.Paused {
+				return fmt.Sprintf("step %d: the session was paused (second attempt, after the first could not save the session file: %v) but is not paused after a manager restart", ci, firstErr), true, classes
+			}
 		case "reset-during-transition":
 			// A reset that arrives while a cycle is in the middle of its
 			// transition phase: history must still be cleared (the first scan
@@ -440,12 +471,12 @@ func TestLifecycleHistories(t *testing.T) {
 	if ev.ReplayPath() != "" {
 		t.Skip()
 	}
-	rec := ev.New(t, prop, "lifecycle-histories", "rapid: command sequences (5-25 of: edit alpha/beta, pause, resume, waiting flush, non-waiting flush, reset, terminate, manager restart on the same data directory, a waiting flush racing with a pause, a waiting flush issued behind a cycle that is still scanning, a reset issued while beta's transition is held in flight and a file both roots hold is deleted on alpha) on a real Manager session between two real roots, endpoint calls journaled with a global sequence; non-trivial: the history contains pause -> restart -> resume or a flush racing with a pause")
+	rec := ev.New(t, prop, "lifecycle-histories", "rapid: command sequences (5-25 of: edit alpha/beta, pause, resume, waiting flush, non-waiting flush, reset, terminate, manager restart on the same data directory, a waiting flush racing with a pause, a waiting flush issued behind a cycle that is still scanning, a pause whose first attempt cannot save the session file (directory moved away) retried and followed by a manager restart, a reset issued while beta's transition is held in flight and a file both roots hold is deleted on alpha) on a real Manager session between two real roots, endpoint calls journaled with a global sequence; non-trivial: the history contains pause -> restart -> resume or a flush racing with a pause")
 	base := t.TempDir()
 	n := 0
 	ev.Check(t, rec, 150, 5000, func(rt *rapid.T) {
 		c := &Case{CreatePaused: rapid.IntRange(0, 4).Draw(rt, "create-paused") == 0}
-		ops := []string{"edit-alpha", "edit-beta", "edit-alpha", "pause", "resume", "resume", "flush", "flush", "flush-nowait", "flush-behind-running-cycle", "reset", "reset-during-transition", "terminate", "restart", "restart", "flush||pause", "settle"}
+		ops := []string{"edit-alpha", "edit-beta", "edit-alpha", "pause", "resume", "resume", "flush", "flush", "flush-nowait", "flush-behind-running-cycle", "reset", "reset-during-transition", "pause-after-failed-save", "terminate", "restart", "restart", "flush||pause", "settle"}
 		for k := rapid.IntRange(5, 25).Draw(rt, "len"); k > 0; k-- {
 			op := rapid.SampledFrom(ops).Draw(rt, "op")
 			if op == "terminate" && rapid.IntRange(0, 2).Draw(rt, "really-terminate") > 0 {
